@@ -501,7 +501,11 @@ pub fn check(args: &[String]) -> i32 {
     let tier = arg(args, "--tier").or_else(|| std::env::var("VERIF_TIER").ok()).unwrap_or_else(|| "quick".into());
     let tier = if tier == "thorough" { "thorough" } else { "quick" };
     let seed: u64 = std::env::var("VERIF_SEED").ok().and_then(|s| s.parse().ok()).unwrap_or(DEFAULT_SEED);
-    let runs: u64 = arg(args, "--runs").and_then(|s| s.parse().ok()).unwrap_or_else(|| tier_runs(&prop, tier));
+    // NFSIM_RUNS: side experiments only (blame matrix of the sensitivity runs); never set by bin/check
+    let runs: u64 = arg(args, "--runs")
+        .and_then(|s| s.parse().ok())
+        .or_else(|| std::env::var("NFSIM_RUNS").ok().and_then(|s| s.parse().ok()))
+        .unwrap_or_else(|| tier_runs(&prop, tier));
     let workers: usize = arg(args, "--workers")
         .and_then(|s| s.parse().ok())
         .unwrap_or_else(|| std::thread::available_parallelism().map(|n| n.get()).unwrap_or(4));
@@ -586,6 +590,24 @@ pub fn check(args: &[String]) -> i32 {
 
     classify(&prop, &batch.reports, &batch.crashes, &exe, seed, &known, &mut known_status, &mut verdict);
 
+    // C01: a slice of the same seeds through the unoptimised binary (large stack frames)
+    let mut dev_extra = serde_json::json!(null);
+    if prop == "C01" {
+        if let Some(dev) = arg(args, "--dev-bin") {
+            let devp = std::path::PathBuf::from(dev);
+            let n = (runs / 8).max(200);
+            let b3 = run_batch(&devp, &prop, seed, n, workers, Duration::from_secs(300), deadline);
+            dev_extra = serde_json::json!({
+                "profile": "opt-level=0 (dev-like frames)",
+                "runs": b3.agg.evaluations,
+                "deliveries": b3.agg.deliveries,
+                "worker_crashes_or_hangs": b3.crashes.len(),
+                "faults_fired": b3.agg.fired,
+            });
+            classify(&prop, &b3.reports, &b3.crashes, &devp, seed, &known, &mut known_status, &mut verdict);
+        }
+    }
+
     for k in known.iter().filter(|k| k.property == prop) {
         let (rep, hits) = known_status.get(&k.id).cloned().unwrap_or((false, 0));
         if rep || hits > 0 {
@@ -636,6 +658,7 @@ pub fn check(args: &[String]) -> i32 {
             "known_findings_met": known_status.iter().map(|(k, v)| (k.clone(), serde_json::json!({"committed_replay_reproduces": v.0, "met_in_run": v.1}))).collect::<BTreeMap<_, _>>(),
             "fixed_entries": fixed,
             "c17_cross_build": c17_extra,
+            "c01_unoptimised_build_slice": dev_extra,
             "components": {
                 "real_code": ["NetflowParser::parse_bytes", "V9Parser", "IPFixParser", "V5Parser", "V7Parser", "to_be_bytes (V5/V7/V9/IPFix)", "as_netflow_common", "parse_bytes_as_netflow_common_flowsets", "serde Serialize impls + serde_json serializer"],
                 "stub": ["exporters", "network (delay, drop, dup, reorder, partition, truncate, corrupt, coalesce)", "UDP receive buffer", "source dispatch", "exporter clocks", "JSON sink"],
@@ -697,7 +720,7 @@ fn expected_probes(prop: &str) -> Vec<&'static str> {
         "C04" => vec!["records_compared", "options_template", "v9_options_data", "template_and_data_in_same_packet", "data_set_with_padding", "several_template_records_in_set"],
         "C05" => vec!["records_compared", "options_template", "enterprise_field", "varlen_3_byte_length_form", "ipfix_options_data", "zero_length_field_template", "data_set_with_padding"],
         "C06" => vec!["cache_changing_delivery", "redefine", "kind_switch", "collector_restart", "exporter_restart", "split_vs_coalesced_compared", "heal_delivery", "disallowed_version_delivery", "dup", "reorder_delay", "drop"],
-        "C07" => vec!["v9_data_for_unknown_template", "ipfix_data_for_unknown_template", "unknown_template_after_earlier_packets", "recovery_delivery", "recovered_sets_decoded"],
+        "C07" => vec!["v9_data_for_unknown_template", "ipfix_data_for_unknown_template", "unknown_template_after_earlier_packets", "recovery_delivery", "recovered_sets_decoded", "same_data_bytes_redelivered_after_template"],
         "C09" | "C10" => vec!["exact_roundtrip"],
         "C11" => vec!["chained_delivery", "chain_with_3plus_versions", "chain_with_failing_member"],
         "C12" => vec!["excluded_member_present", "excluded_member_after_reported_ones", "allowed_unknown_version"],
@@ -815,6 +838,17 @@ fn classify(
         if !ok {
             verdict.notes.push(format!("could not write replay for {}", code));
             continue;
+        }
+        // record which binary found it, so that bin/replay uses the same one
+        if exe.to_string_lossy().contains("stackdev") {
+            if let Ok(text) = std::fs::read_to_string(&out) {
+                if let Ok(mut rf) = serde_json::from_str::<ReplayFile>(&text) {
+                    if !rf.features.contains("stackdev") {
+                        rf.features = format!("{}+stackdev(opt-level=0)", rf.features);
+                        let _ = std::fs::write(&out, serde_json::to_string_pretty(&rf).unwrap());
+                    }
+                }
+            }
         }
         // confirmation run in a fresh process
         if reproduces(exe, &out, &code) {
